@@ -241,32 +241,40 @@ theorem budget_when_ready {p : Pacer} {bw now : Int} (hp : Ok p) (h0 : 0 ≤ bw)
 
 /-! ### send sequences, gating, token-bucket conservation -/
 
-/-- what happens to a pacer: a packet is sent (with the bandwidth getBandwidth() returned
-    at that moment), or path-MTU discovery changes the datagram size -/
+/-- what happens to a pacer: a packet released by the pacer is sent (`send`, with the
+    bandwidth getBandwidth() returned at that moment); a packet the pacer did NOT release is
+    reported to it all the same (`usend`: quic-go sends ACK-only packets, PTO probes and
+    path-MTU probes while pacing-limited — any size, regardless of the budget); or path-MTU
+    discovery changes the datagram size.  Both kinds of send go through the same SentPacket. -/
 inductive Ev where
   | send (t size bw : Int)
+  | usend (t size bw : Int)
   | setMds (s : Int)
   deriving Repr, DecidableEq
 
 def applyEv (p : Pacer) : Ev → Pacer
   | .send t size bw => sentPacket p bw t size
+  | .usend t size bw => sentPacket p bw t size
   | .setMds s => setMaxDatagramSize p s
 
 def run (p : Pacer) (es : List Ev) : Pacer := es.foldl applyEv p
 
-/-- bytes handed to the network by a sequence -/
+/-- bytes RELEASED BY PACING in a sequence: the paced sends only -/
 def total : List Ev → Int
   | [] => 0
   | .send _ size _ :: es => size + total es
-  | .setMds _ :: es => total es
+  | _ :: es => total es
 
-/-- one event is admissible: a send happens at a positive time not before the previous send,
-    its bandwidth is in (0, B], "rate × gap fits 63 bits", and it is covered by the budget —
-    which is what `HasPacingBudget(t)` plus "at most one datagram" give (see `gated_of_hasBudget`);
-    a datagram size is positive and at most M. -/
+/-- one event is admissible: any send happens at a positive time not before the previous
+    send, its bandwidth is in (0, B] and "rate × gap fits 63 bits"; a PACED send is moreover
+    covered by the budget — which is what `HasPacingBudget(t)` plus "at most one datagram"
+    give (see `gated_of_hasBudget`) — whereas an UNPACED send has any size ≥ 0 whatever the
+    budget; a datagram size is positive and at most M. -/
 def Gated (B M : Int) (p : Pacer) : Ev → Prop
   | .send t size bw =>
       0 < t ∧ GapOk p bw t ∧ 0 < bw ∧ bw ≤ B ∧ 0 ≤ size ∧ size ≤ budget p bw t
+  | .usend t size bw =>
+      0 < t ∧ GapOk p bw t ∧ 0 < bw ∧ bw ≤ B ∧ 0 ≤ size
   | .setMds s => 0 < s ∧ s ≤ M
 
 def AllGated (B M : Int) : Pacer → List Ev → Prop
@@ -302,6 +310,7 @@ theorem total_append (a b : List Ev) : total (a ++ b) = total a + total b := by
   | cons e es ih =>
     cases e with
     | send t size bw => simp only [List.cons_append, total, ih]; omega
+    | usend t size bw => simp only [List.cons_append, total, ih]
     | setMds s => simp only [List.cons_append, total, ih]
 
 theorem allGated_append {B M : Int} (a b : List Ev) :
@@ -312,20 +321,47 @@ theorem allGated_append {B M : Int} (a b : List Ev) :
     intro p
     simp only [List.cons_append, AllGated, run_cons, ih, and_assoc]
 
-/-- a gated step keeps the state in range -/
+/-- what SentPacket leaves in the bucket, in range: max(0, Budget − size) -/
+theorem sentPacket_budget {p : Pacer} {bw t size : Int} (hp : Ok p) (h0 : 0 ≤ bw)
+    (hbw : bw ≤ 1099511627776) (hg : GapOk p bw t) (hs0 : 0 ≤ size) :
+    (sentPacket p bw t size).budgetAtLastSent =
+      (if size > budget p bw t then 0 else budget p bw t - size) ∧
+    (sentPacket p bw t size).lastSentTime = t ∧
+    (sentPacket p bw t size).maxDatagramSize = p.maxDatagramSize := by
+  have hb := budget_le_burst hp h0 hbw hg
+  have hn := budget_nonneg hp h0 hbw hg
+  have := hp.m0; have := hp.mhi
+  have hbu : burst bw p.maxDatagramSize ≤ 4611686018427387904 := by unfold burst; omega
+  refine ⟨?_, rfl, rfl⟩
+  simp only [sentPacket]
+  split
+  · rfl
+  · rw [wrap64_id (by omega) (by omega)]
+
+/-- an admissible step keeps the state in range — also an unpaced send of any size, which
+    only lowers the budget, floored at 0 -/
 theorem ok_applyEv {B M : Int} {p : Pacer} {e : Ev} (hB : B ≤ 1099511627776)
     (hM : M ≤ 4294967296) (hp : Ok p) (hg : Gated B M p e) : Ok (applyEv p e) := by
+  have hsend : ∀ t size bw, 0 < t → GapOk p bw t → 0 < bw → bw ≤ B → 0 ≤ size →
+      Ok (sentPacket p bw t size) := by
+    intro t size bw ht hgap hbw hle hs0
+    obtain ⟨h1, h2, h3⟩ := sentPacket_budget hp (by omega : 0 ≤ bw) (by omega) hgap hs0
+    have hb := budget_le_burst hp (by omega : 0 ≤ bw) (by omega) hgap
+    have hn := budget_nonneg hp (by omega : 0 ≤ bw) (by omega) hgap
+    have := hp.m0; have := hp.mhi
+    have hbu : burst bw p.maxDatagramSize ≤ 4611686018427387904 := by unfold burst; omega
+    obtain ⟨_, htt, _⟩ := hgap
+    refine ⟨?_, ?_, by rw [h3]; exact hp.m0, by rw [h3]; exact hp.mhi, by rw [h2]; omega,
+      by rw [h2]; omega⟩
+    · rw [h1]; split <;> omega
+    · rw [h1]; split <;> omega
   cases e with
   | send t size bw =>
-    obtain ⟨ht, hgap, hbw, hle, hs0, hs⟩ := hg
-    have hb := budget_le_burst hp (by omega) (by omega) hgap
-    have := hp.m0; have := hp.mhi
-    obtain ⟨_, htt, _⟩ := hgap
-    have hbu : burst bw p.maxDatagramSize ≤ 4611686018427387904 := by unfold burst; omega
-    simp only [applyEv, sentPacket]
-    rw [if_neg (by omega), wrap64_id (by omega) (by omega)]
-    exact ⟨by simp only; omega, by simp only; omega, hp.m0, hp.mhi, by simp only; omega,
-      by simp only; omega⟩
+    obtain ⟨ht, hgap, hbw, hle, hs0, _⟩ := hg
+    exact hsend t size bw ht hgap hbw hle hs0
+  | usend t size bw =>
+    obtain ⟨ht, hgap, hbw, hle, hs0⟩ := hg
+    exact hsend t size bw ht hgap hbw hle hs0
   | setMds s =>
     obtain ⟨h1, h2⟩ := hg
     exact ⟨hp.b0, hp.bhi, h1, by simp only [applyEv, setMaxDatagramSize]; omega, hp.l0, hp.lhi⟩
@@ -334,6 +370,7 @@ theorem mds_applyEv {B M : Int} {p : Pacer} {e : Ev} (hm : p.maxDatagramSize ≤
     (hg : Gated B M p e) : (applyEv p e).maxDatagramSize ≤ M := by
   cases e with
   | send t size bw => exact hm
+  | usend t size bw => exact hm
   | setMds s => exact hg.2
 
 theorem ok_run {B M : Int} (hB : B ≤ 1099511627776) (hM : M ≤ 4294967296) (es : List Ev) :
@@ -346,66 +383,113 @@ theorem ok_run {B M : Int} (hB : B ≤ 1099511627776) (hM : M ≤ 4294967296) (e
     rw [run_cons]
     exact ih _ (ok_applyEv hB hM hp h.1) (mds_applyEv hm h.1) h.2
 
-/-- the one-step token-bucket fact: what is sent plus what is left is what was there plus
-    the accrual since the previous send, at most at rate B -/
-theorem send_step {B M : Int} {p : Pacer} {t size bw : Int} (hB : B ≤ 1099511627776)
-    (hp : Ok p) (hl : p.lastSentTime ≠ 0) (hg : Gated B M p (.send t size bw)) :
-    size + (applyEv p (.send t size bw)).budgetAtLastSent
-      ≤ p.budgetAtLastSent + B * (t - p.lastSentTime) / 1000000000 := by
-  obtain ⟨ht, hgap, hbw, hle, hs0, hs⟩ := hg
-  have hb := budget_le_burst hp (by omega) (by omega) hgap
+/-- the one-step token-bucket fact for ANY send of size ≥ 0 from a state in which something
+    has been sent: what is left is at most what was there plus the accrual at rate ≤ B minus
+    — if the send was covered by the budget — its size -/
+theorem sent_step {B : Int} {p : Pacer} {t size bw : Int} (hB : B ≤ 1099511627776)
+    (hp : Ok p) (hl : p.lastSentTime ≠ 0) (hgap : GapOk p bw t) (hbw : 0 < bw) (hle : bw ≤ B)
+    (hs0 : 0 ≤ size) :
+    (sentPacket p bw t size).budgetAtLastSent
+        ≤ p.budgetAtLastSent + B * (t - p.lastSentTime) / 1000000000 ∧
+    (size ≤ budget p bw t →
+      size + (sentPacket p bw t size).budgetAtLastSent
+        ≤ p.budgetAtLastSent + B * (t - p.lastSentTime) / 1000000000) := by
+  obtain ⟨h1, _, _⟩ := sentPacket_budget hp (by omega : 0 ≤ bw) (by omega) hgap hs0
+  have hn := budget_nonneg hp (by omega : 0 ≤ bw) (by omega) hgap
   have hbi := budget_inrange hp (by omega : 0 ≤ bw) (by omega) hgap
   rw [if_neg hl] at hbi
-  have := hp.m0; have := hp.mhi
-  have hbu : burst bw p.maxDatagramSize ≤ 4611686018427387904 := by unfold burst; omega
-  simp only [applyEv, sentPacket]
-  rw [if_neg (by omega), wrap64_id (by omega) (by omega)]
   have hacc : budget p bw t ≤ accrued p bw t := by rw [hbi]; omega
   obtain ⟨hlt, _, _⟩ := hgap
   have hmono : bw * (t - p.lastSentTime) / 1000000000 ≤ B * (t - p.lastSentTime) / 1000000000 :=
     Int.ediv_le_ediv (by omega) (Int.mul_le_mul_of_nonneg_right hle (by omega))
   unfold accrued at hacc
-  omega
+  rw [h1]
+  constructor
+  · split <;> omega
+  · intro hs; rw [if_neg (by omega)]; omega
 
-/-- conservation over a whole gated sequence from a state in which something has been sent -/
-theorem conservation {B M : Int} (hB : B ≤ 1099511627776) (hM : M ≤ 4294967296)
-    (es : List Ev) :
-    ∀ p, Ok p → p.lastSentTime ≠ 0 → AllGated B M p es →
-      p.lastSentTime ≤ (run p es).lastSentTime ∧
-      total es + (run p es).budgetAtLastSent
-        ≤ p.budgetAtLastSent + B * ((run p es).lastSentTime - p.lastSentTime) / 1000000000 := by
+/-- after time T no paced send can happen at a time ≤ T -/
+theorem no_paced_after {B M : Int} (T : Int) (es : List Ev) :
+    ∀ p, T < p.lastSentTime → AllGated B M p es →
+      (∀ t size bw, Ev.send t size bw ∈ es → t ≤ T) → total es = 0 := by
+  induction es with
+  | nil => intro _ _ _ _; rfl
+  | cons e es ih =>
+    intro p hT h hall
+    obtain ⟨hg, hrest⟩ := h
+    have hall' : ∀ t size bw, Ev.send t size bw ∈ es → t ≤ T :=
+      fun t size bw hm => hall t size bw (List.mem_cons_of_mem _ hm)
+    cases e with
+    | send t size bw =>
+      have := hall t size bw (List.mem_cons_self ..)
+      obtain ⟨_, ⟨hle, _, _⟩, _⟩ := hg
+      omega
+    | usend t size bw =>
+      obtain ⟨_, ⟨hle, _, _⟩, _⟩ := hg
+      simp only [total]
+      exact ih _ (by show T < t; omega) hrest hall'
+    | setMds s =>
+      simp only [total]
+      exact ih (applyEv p (.setMds s)) hT hrest hall'
+
+/-- conservation: from a state in which something has been sent, the paced bytes up to time
+    T are at most what was in the bucket plus the accrual at rate B until T — whatever
+    unpaced sends occur in between -/
+theorem conservation {B M : Int} (hB : B ≤ 1099511627776) (hM : M ≤ 4294967296) (hB0 : 0 ≤ B)
+    (T : Int) (es : List Ev) :
+    ∀ p, Ok p → p.lastSentTime ≠ 0 → p.lastSentTime ≤ T → AllGated B M p es →
+      (∀ t size bw, Ev.send t size bw ∈ es → t ≤ T) →
+      total es ≤ p.budgetAtLastSent + B * (T - p.lastSentTime) / 1000000000 := by
   induction es with
   | nil =>
-    intro p _ _ _
-    simp [total, run]
+    intro p hp _ hT _ _
+    have := hp.b0
+    have hx : 0 ≤ B * (T - p.lastSentTime) := Int.mul_nonneg hB0 (by omega)
+    simp only [total]; omega
   | cons e es ih =>
-    intro p hp hl h
+    intro p hp hl hT h hall
     obtain ⟨hg, hrest⟩ := h
     have hok := ok_applyEv hB hM hp hg
-    rw [run_cons]
+    have hall' : ∀ t size bw, Ev.send t size bw ∈ es → t ≤ T :=
+      fun t size bw hm => hall t size bw (List.mem_cons_of_mem _ hm)
+    have hsplit : ∀ t, B * (T - p.lastSentTime) = B * (t - p.lastSentTime) + B * (T - t) := by
+      intro t; rw [← Int.mul_add]; congr 1; omega
     cases e with
     | setMds s =>
-      have := ih _ hok (by simpa [applyEv, setMaxDatagramSize] using hl) hrest
-      simpa [total, applyEv, setMaxDatagramSize] using this
-    | send t size bw =>
-      have hstep := send_step hB hp hl hg
-      obtain ⟨ht, hgap, hbw, hle, hs0, hs⟩ := hg
-      obtain ⟨hlt, _, _⟩ := hgap
-      have hlast : (applyEv p (.send t size bw)).lastSentTime = t := rfl
-      obtain ⟨hge, hih⟩ := ih _ hok (by rw [hlast]; omega) hrest
-      rw [hlast] at hge hih
-      generalize (run (applyEv p (.send t size bw)) es).lastSentTime = L at hge hih ⊢
-      generalize (run (applyEv p (.send t size bw)) es).budgetAtLastSent = bend at hih ⊢
-      generalize (applyEv p (.send t size bw)).budgetAtLastSent = b1 at hstep hih
-      have hsplit : B * (L - p.lastSentTime) = B * (t - p.lastSentTime) + B * (L - t) := by
-        rw [← Int.mul_add]; congr 1; omega
       simp only [total]
-      refine ⟨by omega, ?_⟩
-      rw [hsplit]
+      exact ih (applyEv p (.setMds s)) hok hl hT hrest hall'
+    | send t size bw =>
+      have htT := hall t size bw (List.mem_cons_self ..)
+      obtain ⟨ht, hgap, hbw, hle, hs0, hs⟩ := hg
+      have hstep := (sent_step hB hp hl hgap hbw hle hs0).2 hs
+      have hih := ih _ hok (by show t ≠ 0; omega) (by show t ≤ T; exact htT) hrest hall'
+      simp only [applyEv] at hih
+      have hl2 : (sentPacket p bw t size).lastSentTime = t := rfl
+      rw [hl2] at hih
+      generalize (sentPacket p bw t size).budgetAtLastSent = b1 at hstep hih
+      simp only [total]
+      rw [hsplit t]
       omega
+    | usend t size bw =>
+      obtain ⟨ht, hgap, hbw, hle, hs0⟩ := hg
+      simp only [total]
+      by_cases htT : t ≤ T
+      · have hstep := (sent_step hB hp hl hgap hbw hle hs0).1
+        have hih := ih _ hok (by show t ≠ 0; omega) (by show t ≤ T; exact htT) hrest hall'
+        simp only [applyEv] at hih
+        have hl2 : (sentPacket p bw t size).lastSentTime = t := rfl
+        rw [hl2] at hih
+        generalize (sentPacket p bw t size).budgetAtLastSent = b1 at hstep hih
+        rw [hsplit t]
+        omega
+      · rw [no_paced_after T es _ (by show T < t; omega) hrest hall']
+        have := hp.b0
+        have hx : 0 ≤ B * (T - p.lastSentTime) := Int.mul_nonneg hB0 (by omega)
+        omega
 
-/-- bytes released by a gated sequence all of whose sends lie in [t1, t2], from ANY in-range
-    state: at most the burst allowance at rate B plus B × (t2 − t1) -/
+/-- bytes released by pacing in a sequence all of whose PACED sends lie in [t1, t2], from ANY
+    in-range state and with unpaced sends of any size interleaved at will: at most the burst
+    allowance at rate B plus B × (t2 − t1) -/
 theorem window_bound {B M : Int} (hB : B ≤ 1099511627776) (hM : M ≤ 4294967296)
     (t1 t2 : Int) (ht : t1 ≤ t2) (hB0 : 0 ≤ B) (es : List Ev) :
     ∀ p, Ok p → p.maxDatagramSize ≤ M → AllGated B M p es →
@@ -423,47 +507,28 @@ theorem window_bound {B M : Int} (hB : B ≤ 1099511627776) (hM : M ≤ 42949672
     intro p hp hm h hwin
     obtain ⟨hg, hrest⟩ := h
     have hok := ok_applyEv hB hM hp hg
+    have hwin' : ∀ t size bw, Ev.send t size bw ∈ es → t1 ≤ t ∧ t ≤ t2 :=
+      fun t size bw hmem => hwin t size bw (List.mem_cons_of_mem _ hmem)
     cases e with
     | setMds s =>
       simp only [total]
-      exact ih _ hok (mds_applyEv hm hg) hrest
-        (fun t size bw hmem => hwin t size bw (List.mem_cons_of_mem _ hmem))
+      exact ih _ hok (mds_applyEv hm hg) hrest hwin'
+    | usend t size bw =>
+      simp only [total]
+      exact ih _ hok (mds_applyEv hm hg) hrest hwin'
     | send t size bw =>
       obtain ⟨ht1, ht2⟩ := hwin t size bw (List.mem_cons_self ..)
-      have hg' := hg
       obtain ⟨ht0, hgap, hbw, hle, hs0, hs⟩ := hg
       have hbud := budget_le_burst hp (by omega : 0 ≤ bw) (by omega) hgap
       have hbm : burst bw p.maxDatagramSize ≤ burst B M := burst_mono hle hm
-      have hlast : (applyEv p (.send t size bw)).lastSentTime = t := rfl
-      obtain ⟨hge, hcons⟩ := conservation hB hM es _ hok (by rw [hlast]; omega) hrest
-      rw [hlast] at hge hcons
-      -- the last send of the rest is inside the window too
-      have hL : (run (applyEv p (.send t size bw)) es).lastSentTime ≤ t2 := by
-        have : ∀ (es : List Ev) (q : Pacer), q.lastSentTime ≤ t2 →
-            (∀ t size bw, Ev.send t size bw ∈ es → t ≤ t2) → (run q es).lastSentTime ≤ t2 := by
-          intro es
-          induction es with
-          | nil => intro q hq _; exact hq
-          | cons e es ih2 =>
-            intro q hq hall
-            rw [run_cons]
-            cases e with
-            | setMds s => exact ih2 _ hq (fun t size bw hm => hall t size bw (List.mem_cons_of_mem _ hm))
-            | send t' size' bw' =>
-              exact ih2 _ (hall t' size' bw' (List.mem_cons_self ..))
-                (fun t size bw hm => hall t size bw (List.mem_cons_of_mem _ hm))
-        exact this es _ (by rw [hlast]; exact ht2)
-          (fun t size bw hm => (hwin t size bw (List.mem_cons_of_mem _ hm)).2)
-      have hb1 : (applyEv p (.send t size bw)).budgetAtLastSent = budget p bw t - size := by
-        have := hp.m0; have := hp.mhi
-        have hbu : burst bw p.maxDatagramSize ≤ 4611686018427387904 := by unfold burst; omega
-        simp only [applyEv, sentPacket]
-        rw [if_neg (by omega), wrap64_id (by omega) (by omega)]
-      have hend := (ok_run hB hM es _ hok (mds_applyEv hm hg') hrest).1.b0
-      generalize (run (applyEv p (.send t size bw)) es).lastSentTime = L at hge hcons hL
-      generalize (run (applyEv p (.send t size bw)) es).budgetAtLastSent = bend at hcons hend
-      rw [hb1] at hcons
-      have hmono : B * (L - t) / 1000000000 ≤ B * (t2 - t1) / 1000000000 :=
+      obtain ⟨hb1, _, _⟩ := sentPacket_budget hp (by omega : 0 ≤ bw) (by omega) hgap hs0
+      rw [if_neg (by omega)] at hb1
+      have hcons := conservation hB hM hB0 t2 es _ hok (by show t ≠ 0; omega)
+        (by show t ≤ t2; exact ht2) hrest (fun t size bw hm => (hwin' t size bw hm).2)
+      simp only [applyEv] at hcons
+      have hl2 : (sentPacket p bw t size).lastSentTime = t := rfl
+      rw [hl2, hb1] at hcons
+      have hmono : B * (t2 - t) / 1000000000 ≤ B * (t2 - t1) / 1000000000 :=
         Int.ediv_le_ediv (by omega) (Int.mul_le_mul_of_nonneg_left (by omega) hB0)
       simp only [total]
       omega
